@@ -15,12 +15,19 @@
 (* only if it meets the collect thresholds (a new track keeps it anyway).        *)
 EXTENDS Tracker
 CONSTANTS Feats, Quals, MaxObs, MinTrackLen, MinVotes, QUse, QCollect, VisThr,
+          MinArea,             \* minimal box area for a feature to be used / collected
+          VisKind,             \* "euclid" | "cosine"
           OwnUse, OwnCollect   \* minimal exclusively-owned area share (1/100) to use / collect a feature; both 0 = not computed
 
 VDet == [slot : Slots, conf : Confs, cid : Cids, f : Feats \cup {0}, q : Quals]
-(* feature symbols are points: 1 = (0,0), 2 = (3,0), 3 = (0,4); Euclidean distances x 10 *)
+(* feature symbols are points.  Euclidean: 1 = (0,0), 2 = (3,0), 3 = (0,4), distances x 10.
+   Cosine: 1 = (1,0), 2 = (0.6,0.8), 3 = (0,1); the engine votes with 1 - similarity, x 10 *)
 Dist(a, b) == IF a = b THEN 0 ELSE LET p == IF a < b THEN <<a, b>> ELSE <<b, a>> IN
-              CASE p = <<1, 2>> -> 30 [] p = <<1, 3>> -> 40 [] p = <<2, 3>> -> 50
+              IF VisKind = "euclid"
+              THEN CASE p = <<1, 2>> -> 30 [] p = <<1, 3>> -> 40 [] p = <<2, 3>> -> 50
+              ELSE CASE p = <<1, 2>> -> 4 [] p = <<1, 3>> -> 10 [] p = <<2, 3>> -> 2
+(* areas of the slot boxes of the harness *)
+SlotArea(s) == CASE s = 1 -> 3200 [] s = 2 -> 2400 [] s = 3 -> 2500 [] s = 4 -> 2880
 MaxOf(S) == CHOOSE x \in S : \A y \in S : y <= x
 RECURSIVE SumSet(_, _)
 SumSet(f, S) == IF S = {} THEN 0 ELSE LET x == CHOOSE y \in S : TRUE IN f[x] + SumSet(f, S \ {x})
@@ -61,8 +68,8 @@ GalleryAllowed(g, f, q, collectable, g2) ==
    same box, so a detection owns all of its area or (when another detection of the call sits on its slot) none *)
 Share(dets, i) == IF \E j \in DOMAIN dets : j # i /\ dets[j].slot = dets[i].slot THEN 0 ELSE 100
 OwnOn == OwnUse + OwnCollect > 0
-Usable(dets, i) == dets[i].f # 0 /\ dets[i].q >= QUse /\ (OwnOn => Share(dets, i) >= OwnUse)
-Collectable(dets, i) == dets[i].f # 0 /\ dets[i].q >= QCollect /\ (OwnOn => Share(dets, i) >= OwnCollect)
+Usable(dets, i) == dets[i].f # 0 /\ dets[i].q >= QUse /\ SlotArea(dets[i].slot) >= MinArea /\ (OwnOn => Share(dets, i) >= OwnUse)
+Collectable(dets, i) == dets[i].f # 0 /\ dets[i].q >= QCollect /\ SlotArea(dets[i].slot) >= MinArea /\ (OwnOn => Share(dets, i) >= OwnCollect)
 (* gallery entries of track t whose feature lies within the visual threshold of detection d *)
 Votes(dets, i, t) == IF Usable(dets, i) /\ Collected(t.gal) >= MinTrackLen
                THEN {j \in DOMAIN t.gal : t.gal[j].f # 0 /\ Dist(dets[i].f, t.gal[j].f) <= VisThr} ELSE {}
